@@ -371,6 +371,8 @@ class RequestCache(TaskManager):
         identifier = self._create_identifier(cache.number, cache.prefix)
         if identifier in self._identifiers:
             self._identifiers.pop(identifier)
+        # release the timeout task as well, so that on_timeout is free to add the cache again
+        self.cancel_pending_task(cache)
 
         cache.on_timeout()
 
@@ -380,8 +382,6 @@ class RequestCache(TaskManager):
                     future.set_exception(on_timeout)
                 else:
                     future.set_result(on_timeout)
-
-        self.cancel_pending_task(cache)
 
     def _create_identifier(self, number: int, prefix: str) -> str:
         return f"{prefix}:{number}"
